@@ -23,7 +23,7 @@ type Model struct {
 
 func newModel() Model {
 	m := Model{T: map[string]*TModel{}}
-	for _, t := range []string{tGen, tMid, tTop, tLeaf, tOther} {
+	for _, t := range []string{tGen, tMid, tTop, tLeaf, tOther, tColon} {
 		m.T[t] = &TModel{SawLatest: map[string]bool{}}
 	}
 	return m
